@@ -42,6 +42,14 @@ func init() {
 			}
 		}
 		g.pf("def scoping : List (String × String) :=\n  %s\n\n", leanPairList(scope))
+		// integer conversions and literals: which width is emitted
+		var conv [][2]string
+		for _, n := range []string{"Ctx.integerConversion", "getIntegerType", "Ctx.basicLiteral", "Ctx.incDecStmt"} {
+			if fds[n] != nil {
+				conv = append(conv, [2]string{n, canonFunc(p, fds[n])})
+			}
+		}
+		g.pf("def widths : List (String × String) :=\n  %s\n\n", leanPairList(conv))
 		g.pf("end GooseVerif.Gen.Guards\n")
 		g.write()
 	}})
